@@ -67,3 +67,67 @@ pub proof fn lemma_ascii_chars_from_bytes(s: Seq<char>, b: Seq<u8>)
         assert forall|i: int| 0 <= i < b.len() implies b[i] < 128 by { assert(s[i] as u32 == b[i] as u32); }
     }
 }
+
+// ---- request line: safe_regex matcher for  (token+) ([^ \t\r\n]+) ([^ \t\r\n]+)  (full match), assumed contract
+#[verifier::external_body]
+#[verifier::reject_recursive_types(F)]
+pub struct Matcher3<F> { _f: core::marker::PhantomData<F> }
+pub uninterp spec fn req_matches(line: Seq<u8>) -> bool;
+pub uninterp spec fn req_method(line: Seq<u8>) -> Seq<u8>;
+pub uninterp spec fn req_target(line: Seq<u8>) -> Seq<u8>;
+pub uninterp spec fn req_proto(line: Seq<u8>) -> Seq<u8>;
+impl<F> Matcher3<F> {
+    #[verifier::external_body]
+    pub fn match_slices<'d>(&self, data: &'d [u8]) -> (r: Option<(&'d [u8], &'d [u8], &'d [u8])>)
+        ensures
+            r is Some <==> req_matches(data@),
+            r is Some ==> ({
+                let (m, t, p) = r->Some_0;
+                &&& m@ == req_method(data@) && t@ == req_target(data@) && p@ == req_proto(data@)
+                &&& m@.len() >= 1 && t@.len() >= 1 && p@.len() >= 1
+                &&& forall|i: int| 0 <= i < m@.len() ==> is_tchar(#[trigger] m@[i])
+            }),
+    { unimplemented!() }
+}
+#[verifier::external_body]
+pub fn req_matcher() -> Matcher3<()> { unimplemented!() }
+
+#[verifier::external_type_specification]
+#[verifier::external_body]
+pub struct ExUtf8Error(std::str::Utf8Error);
+// std::str::from_utf8: ASCII is always valid UTF-8; the text is the bytes (first character shown)
+pub assume_specification[ std::str::from_utf8 ](v: &[u8]) -> (r: Result<&str, std::str::Utf8Error>)
+    ensures ascii_bytes(v@) ==> r is Ok && same_text(r->Ok_0@, v@),
+        r is Ok ==> ((r->Ok_0@.len() > 0) == (v@.len() > 0))
+            && (v@.len() > 0 && v@[0] < 128 ==> r->Ok_0@.len() > 0 && r->Ok_0@[0] as u32 == v@[0] as u32)
+            && (v@.len() > 0 && v@[0] >= 128 ==> r->Ok_0@.len() > 0 && r->Ok_0@[0] as u32 >= 128);
+pub uninterp spec fn starts_with_spec<P>(s: Seq<char>, p: P) -> bool;
+#[verifier::allow(undeclared_external_trait)]
+pub assume_specification<P: core::str::pattern::Pattern>[ str::starts_with ](s: &str, p: P) -> (r: bool)
+    ensures r == starts_with_spec(s@, p);
+// what `starts_with('/')` means
+#[verifier::external_body]
+pub proof fn axiom_starts_with_char()
+    ensures forall|s: Seq<char>, c: char| #[trigger] starts_with_spec(s, c) == (s.len() > 0 && s[0] == c)
+{}
+// url::Url (stand-in): Url::parse of the constant base succeeds; parsing a target may fail
+#[derive(Debug)]
+#[verifier::external_body]
+pub struct UrlParseError { _p: () }
+#[verifier::external_body]
+pub struct ParseOptions<'a> { _p: core::marker::PhantomData<&'a ()> }
+impl Url {
+    #[verifier::external_body]
+    pub fn options<'a>() -> ParseOptions<'a> { unimplemented!() }
+    #[verifier::external_body]
+    pub fn parse(s: &str) -> (r: Result<Url, UrlParseError>)
+        ensures s@ == "http://unknown/"@ ==> r is Ok
+    { unimplemented!() }
+}
+impl<'a> ParseOptions<'a> {
+    #[verifier::external_body]
+    pub fn base_url(self, b: Option<&'a Url>) -> Self { unimplemented!() }
+    #[verifier::external_body]
+    pub fn parse(self, s: &str) -> Result<Url, UrlParseError> { unimplemented!() }
+}
+pub open spec fn http11() -> Seq<u8> { seq![72u8, 84u8, 84u8, 80u8, 47u8, 49u8, 46u8, 49u8] }
